@@ -181,6 +181,9 @@ func (a *Actor) runPass(key reconcile.Request) {
 	}
 }
 
+// runawayRequests is far above what any pass of the generated scenarios needs (tens of requests).
+const runawayRequests = 600
+
 // record appends a request to the history and feeds the monitors.
 func (w *World) record(a *Actor, r *Req) {
 	if r.Seq == 0 {
@@ -191,6 +194,12 @@ func (w *World) record(a *Actor, r *Req) {
 		r.Pass = a.pass
 		if a.pass != nil {
 			a.pass.Reqs = append(a.pass.Reqs, r)
+			if len(a.pass.Reqs) == runawayRequests {
+				// a reconcile pass that keeps issuing API requests without end (a retry loop that never
+				// makes progress) is the API-level form of unbounded recursion
+				w.Report(Violation{Property: "C19", Rule: "unbounded-recursion", Sig: "runaway-pass/" + shortSite(r.Site), Seq: r.Seq,
+					Msg: fmt.Sprintf("pass %d of %s %s has issued %d API requests and is still going; the last ones: %s", a.pass.ID, a.pass.Ctrl, a.pass.Key, runawayRequests, r.String())})
+			}
 		}
 	}
 	w.Hist = append(w.Hist, r)
